@@ -249,6 +249,25 @@ CHECKS = {
                    "per run, not proved; timers of one instant (completion == timeout) and cyclic "
                    "event topologies are excluded from generation.",
         design_ref="DESIGN.md section 6/C05"),
+    'C08': dict(
+        text="Model/Lifecycle.v is the clean-up discipline of run_forever/_stop_sblocks as an acceptor over "
+             "the ordered log of start(), stop() and stop_async begin/end (the code iterates over sets, so "
+             "the order inside the async and the sync group is free). Theorems (Props/C08.v), for every "
+             "plan and every accepted log, whatever the termination cause or instant: the stop() calls are "
+             "a duplicate-free permutation of exactly the blocks whose start() returned; every stop_async "
+             "is over before the first block without asynchronous clean-up is stopped; nothing is owed in "
+             "a final state; acceptance implies the counting/ordering clauses of the monitor. Tie: the log "
+             "observed over a matrix fault site x termination cause x instant x second cause x circuit "
+             "composition must be accepted. Observed on the implementation only (not theorems): no "
+             "pending task or timer when run() is over, stop_data delivered last, restart and modification "
+             "refused, documented Event.shutdown() exists.",
+        technique="Coq proof (permutation/ordering invariants of the acceptor) + log acceptance and "
+                  "monitor by vm_compute; leak/stop_data/restart flags observed at run time",
+        level_note="Trusted: Coq kernel/vm_compute, hand-written acceptor tied by this run's correspondence; "
+                   "partial: the asyncio run-time (that a cancelled and awaited task is gone, timers) is "
+                   "not modelled - leaks, stop_data order and restart/modify refusal are measured on the "
+                   "implementation and only combined by the Coq monitor.",
+        design_ref="DESIGN.md section 6/C08"),
 }
 
 NOT_YET = "check not built yet in this round (planned: Coq model + theorems + correspondence, see DESIGN.md section 6)"
